@@ -197,6 +197,39 @@ pub fn cfg_for(driver: &str, tier: &str) -> Option<(Cfg, u32)> {
             c.prune = true;
             (c, if q { 1 } else { 1 })
         }
+        // C16: the kernel interest list after every step, for every fd-backed kind and the Async
+        // adapter; released fds are inserted again; sources outlive the loop or vice versa
+        "epoll" => {
+            let mut c = Cfg::base("epoll");
+            c.insertable = vec![FD_RL, FD_RO, KindSpec::Ping, KindSpec::Chan, KindSpec::Exec, KindSpec::Async];
+            c.reconf = vec![(true, false, 0), (true, true, 1), (false, true, 2)];
+            c.max_actors = if q { 3 } else { 4 };
+            c.depth = if q { 4 } else { 6 };
+            c.top_cause2 = true;
+            c.top_release = true;
+            c.end_order_choice = true;
+            c.cb_remove = true;
+            c.cb_cause = false;
+            c.check_epoll = true;
+            c.prune = true;
+            c.final_dispatches = 1;
+            (c, if q { 1 } else { 2 })
+        }
+        // C10 (sequential half): schedule / complete / remove histories of an executor
+        "exec-seq" => {
+            let mut c = Cfg::base("exec-seq");
+            c.initial_sets = vec![vec![KindSpec::Exec], vec![KindSpec::Exec, KindSpec::Ping]];
+            c.max_actors = 2;
+            c.depth = if q { 6 } else { 8 };
+            c.top_update = true;
+            c.cb_cause = true;
+            c.check_epoll = true;
+            c.check_wait = true;
+            c.top_dispatch_none = true;
+            c.prune = true;
+            c.final_dispatches = 2;
+            (c, if q { 1 } else { 2 })
+        }
         _ => return None,
     })
 }
